@@ -74,8 +74,10 @@ func runReorg(c *xs.Ctx, r *xs.Result, rc reorgCase) {
 		r.Violate("C03:reorg:longer-valid-branch-refused", fmt.Sprintf("%+v: InsertChain of the longer branch: err=%v panic=%v", rc, err, pan), rc)
 		return
 	}
-	if n.Frontier().Hash != q.Frontier().Hash {
-		panic("harness: the node did not switch to the longer branch")
+	switched := n.Frontier().Hash == q.Frontier().Hash
+	if !switched {
+		// whether a node must adopt the longer branch is C16's question; the audit below holds for whatever chain it is on
+		r.Count("reorg_node_did_not_switch", 1)
 	}
 	out1 := ops.Apply(n, M)
 	out2 := ops.Apply(n, M)
